@@ -411,13 +411,14 @@ type Report struct {
 	EventKinds         map[string]int64 `json:"event_kinds"`
 	Violations         []Violation      `json:"violations"`
 	Inconclusive       []string         `json:"inconclusive"`
+	Stuck              []int            `json:"stuck"` // cases abandoned by the wall-clock watchdog
 	MinNontrivial      int              `json:"min_nontrivial"`
 	WallS              float64          `json:"wall_s"`
 }
 
 // caseWatchdog is the wall-clock budget of a single case (virtual-time cases
 // take milliseconds); exceeding it is reported as inconclusive, never as a verdict.
-var caseWatchdog = time.Duration(envInt("VERIF_CASE_WATCHDOG_S", 90)) * time.Second
+var caseWatchdog = time.Duration(envInt("VERIF_CASE_WATCHDOG_S", 40)) * time.Second
 
 func onlyList() map[int]bool {
 	v := os.Getenv("VERIF_ONLY")
@@ -474,17 +475,10 @@ func Run(t *testing.T, cfg Config, body func(c *Case)) {
 						continue
 					}
 					os.WriteFile(cur, []byte(strconv.Itoa(idx)), 0o644)
-					// Real-time watchdog (armed outside any bubble, so it uses the real clock): a
-					// case that makes no progress in wall-clock time is neither held nor violated.
-					wd := time.AfterFunc(caseWatchdog, func() {
-						buf := make([]byte, 8<<20)
-						n := runtime.Stack(buf, true)
-						os.WriteFile(filepath.Join(out, fmt.Sprintf("hang-%d.txt", idx)), buf[:n], 0o644)
-						fmt.Fprintf(os.Stderr, "VERIF-WATCHDOG: case %d made no progress for %v (wall clock); stacks in hang-%d.txt\n", idx, caseWatchdog, idx)
-						os.Exit(3)
-					})
 					c := &Case{Index: idx, R: NewRand(seed, uint64(idx)), T: t, Log: NewLog()}
-					func() {
+					finished := make(chan struct{})
+					go func() {
+						defer close(finished)
 						defer func() {
 							if r := recover(); r != nil {
 								stack := string(debugStack())
@@ -497,7 +491,28 @@ func Run(t *testing.T, cfg Config, body func(c *Case)) {
 						}()
 						body(c)
 					}()
-					wd.Stop()
+					// Real-time watchdog (this select runs outside any bubble, so the timer is a
+					// wall-clock one). A case that makes no progress in wall-clock time is neither
+					// held nor violated: typically virtual time cannot advance because some goroutine
+					// is blocked on a sync.Mutex (not a durable block for synctest) whose holder is
+					// waiting for a timer. The case is abandoned, its stacks are kept for triage.
+					wd := time.NewTimer(caseWatchdog)
+					select {
+					case <-finished:
+						wd.Stop()
+					case <-wd.C:
+						buf := make([]byte, 8<<20)
+						n := runtime.Stack(buf, true)
+						c.mu.Lock()
+						spec := c.spec
+						c.mu.Unlock()
+						extra, _ := json.MarshalIndent(map[string]any{"spec": spec, "events": c.Log.Events()}, "", " ")
+						os.WriteFile(filepath.Join(out, fmt.Sprintf("hang-%d.txt", idx)), append(append(buf[:n], []byte("\n\n==== case ====\n")...), extra...), 0o644)
+						mu.Lock()
+						rep.Stuck = append(rep.Stuck, idx)
+						mu.Unlock()
+						continue
+					}
 					evs := c.Log.Events()
 					mu.Lock()
 					rep.Evaluations++
@@ -562,6 +577,11 @@ func Run(t *testing.T, cfg Config, body func(c *Case)) {
 	}
 	if err := os.WriteFile(filepath.Join(out, "report.json"), data, 0o644); err != nil {
 		t.Fatalf("write report: %v", err)
+	}
+	if len(rep.Stuck) > 0 {
+		// abandoned bubbles can never finish; leave without waiting for them
+		fmt.Fprintf(os.Stderr, "VERIF-STUCK: %d case(s) abandoned by the watchdog: %v\n", len(rep.Stuck), rep.Stuck)
+		os.Exit(4)
 	}
 	if len(rep.Violations) > 0 {
 		t.Errorf("%s: %d violation(s); first: [%s] %s", cfg.Property, len(rep.Violations), rep.Violations[0].Key, rep.Violations[0].Msg)
